@@ -20,6 +20,7 @@ use rand::{seq::SliceRandom, Rng};
 use serde_json::json;
 use std::collections::BTreeMap;
 use std::ffi::OsString;
+use std::path::PathBuf;
 use std::time::Duration;
 
 pub struct C20;
@@ -34,6 +35,40 @@ impl RpcActions for NoRpc {
     }
     async fn network_info(&self) -> ant_service_management::error::Result<NetworkInfo> {
         Err(ant_service_management::error::Error::RpcConnectionError("unused".into()))
+    }
+    async fn record_addresses(&self) -> ant_service_management::error::Result<Vec<RecordAddress>> {
+        Ok(vec![])
+    }
+    async fn node_restart(&self, _d: u64, _r: bool) -> ant_service_management::error::Result<()> {
+        Ok(())
+    }
+    async fn node_stop(&self, _d: u64) -> ant_service_management::error::Result<()> {
+        Ok(())
+    }
+    async fn node_update(&self, _d: u64) -> ant_service_management::error::Result<()> {
+        Ok(())
+    }
+    async fn is_node_connected_to_network(&self, _t: Duration) -> ant_service_management::error::Result<()> {
+        Ok(())
+    }
+    async fn update_log_level(&self, _l: String) -> ant_service_management::error::Result<()> {
+        Ok(())
+    }
+}
+
+/// A running node as the manager sees it over RPC: its own listener first, then a relayed one (home-network
+/// nodes listen through a relay reservation as well)
+struct ListenRpc {
+    pid: u32,
+    listeners: Vec<libp2p::Multiaddr>,
+}
+#[async_trait]
+impl RpcActions for ListenRpc {
+    async fn node_info(&self) -> ant_service_management::error::Result<NodeInfo> {
+        Ok(NodeInfo { pid: self.pid, peer_id: libp2p::PeerId::random(), log_path: PathBuf::from("/log"), data_path: PathBuf::from("/data"), version: "0.1.0".into(), uptime: Duration::from_secs(1), wallet_balance: 0 })
+    }
+    async fn network_info(&self) -> ant_service_management::error::Result<NetworkInfo> {
+        Ok(NetworkInfo { connected_peers: vec![], listeners: self.listeners.clone() })
     }
     async fn record_addresses(&self) -> ant_service_management::error::Result<Vec<RecordAddress>> {
         Ok(vec![])
@@ -227,6 +262,21 @@ impl Check for C20 {
             let _ = std::fs::remove_dir_all(&root);
             return;
         };
+        // ---- half of the services with a configured port are really started first (the manager then refreshes what it
+        //      records from the node's RPC answers: own listener first, a relayed listener with another port second)
+        if let (Some(port), true) = (node_port, cx.rng.gen_bool(0.5)) {
+            let listeners: Vec<libp2p::Multiaddr> = vec![
+                format!("/ip4/127.0.0.1/udp/{port}/quic-v1").parse().expect("multiaddr"),
+                format!("/ip4/10.9.8.7/udp/{}/quic-v1/p2p/{}/p2p-circuit", if port == 40_123 { 40_124 } else { 40_123 }, libp2p::PeerId::random()).parse().expect("multiaddr"),
+            ];
+            let pid = 1001;
+            let started = {
+                let service = NodeService::new(&mut registry.nodes[0], Box::new(ListenRpc { pid, listeners })).with_connection_timeout(Duration::from_secs(1));
+                let mut m = ant_node_manager::ServiceManager::new(service, Box::new(os.clone()), VerbosityLevel::Minimal);
+                rt.block_on(m.start())
+            };
+            cx.count(if started.is_ok() { "started-before-upgrade" } else { "start-before-upgrade-failed" });
+        }
         // ---- upgrade definition from the recorded data
         let opts = UpgradeOptions { auto_restart, env_variables: env.clone(), force: false, start_service: false, target_bin_path: root.join("antnode-src"), target_version: semver::Version::new(9, 9, 9) };
         let upgrade = {
